@@ -76,7 +76,9 @@ class Fn(Space):
 TOK = ["aa", "...", "a...", "...b", "a...b", "....", "..", "…", "Bb.", "wait...", "\"q\"...", "('p')...", "...?", "...,", "-...", "1...2",
        "`c...d`", "[l...](u...v)", "<http://u/...>", "http://u.v/a...b", "{% t a=\"...\" %}", "<!-- c... -->", "<b title=\"...\">", "*e...*", "it's", "- ...",
        # appended later
-       "{% t a...b %}", "{{ v...w }}", "{# c...d #}", "<!-- c...d -->", "[r...s]", "\\.\\.\\."]
+       "{% t a...b %}", "{{ v...w }}", "{# c...d #}", "<!-- c...d -->", "[r...s]", "\\.\\.\\.",
+       # tags whose body holds their own delimiter characters
+       "{% t \"5% a...b\" %}", "{{ v...w | f('}') }}", "{# c...d # e #}", "<!-- c...d - e -- f -->", "{% t a...b -%}"]
 REPS = [TOK.index(t) for t in ("aa", "...", "a...b", "wait...", "`c...d`", "{% t a=\"...\" %}", "Bb.", "http://u.v/a...b")]
 
 
@@ -136,6 +138,8 @@ def spaces(tier):
     kw = dict(full_upto=2, reps=REPS, max_special_seps=1)
     dots = TOK.index("...")
     class_rep = {TOK.index(t): dots for t in ("a...", "...b", "a...b", "....", "wait...", "\"q\"...", "('p')...", "...?", "...,", "-...", "1...2", "- ...")}
+    for t in ("{% t \"5% a...b\" %}", "{{ v...w | f('}') }}", "{# c...d # e #}", "<!-- c...d - e -- f -->", "{% t a...b -%}"):
+        class_rep[TOK.index(t)] = TOK.index("{% t a...b %}")
     para = ParaSpace("C09", "doc-para", TOK, 2 if q else 3, oracle, ctx, sepnames=("sp", "nl", "hb"), widths=(1, 30, 88),
                      lead="zz yy xx ww vv uu tt ", floors={"converted": 1000}, **kw)
     para0 = ParaSpace("C09", "doc-para-start", TOK, 2, oracle, docspace.contexts(0), sepnames=("sp", "nl"), widths=(1, 88), lead="",
